@@ -89,6 +89,14 @@ def make(rule_id, pid=None):
                     from prov import guards as _guards
                     g_ = _guards(ctx, f)
                     triggers = [c for c in triggers if all(atoms_match(rx, g_.atoms_at(("t", c.bb))) for rx in trig["when"])]
+            if not triggers and row.get("met_by_tested_insert"):
+                # `if !set.insert(x) { refuse }`: test and record are one call on one value - the row holds by construction
+                from rules_guard import _insert_is_tested
+                ins_ = [c for c in v.calls.values() if re.search(row["met_by_tested_insert"], c.name) and _insert_is_tested(ctx, f, v, c)]
+                if ins_:
+                    located += 1
+                    res.ok({"row": row["id"], "function": f.path, "trigger": "insert whose answer is tested", "followed_by": "the same call"}, nontrivial=True)
+                    continue
             if not triggers:
                 res.gone.append(row["id"])
                 continue
